@@ -875,7 +875,38 @@ func (wd *vC05World) template() *vC05Cand {
 				r.Out.Threshold() <= len(r.Out.Keys)
 		}
 	}
-	switch k := rng.Intn(22); {
+	switch k := rng.Intn(24); {
+	case k >= 22:
+		// a special input (mint or deposit) that is not the first input: ordinary XIN outputs first
+		c.kind = "special-input-not-first"
+		for i := 0; i <= rng.Intn(2); i++ {
+			wd.addIn(c, hostileIn(unspentScript(verifAssetXIN)))
+		}
+		in := wd.specialInput()
+		for tries := 0; tries < 4 && in.Mint == nil; tries++ { // mostly mints (they are XIN like the ordinary inputs)
+			in = wd.specialInput()
+		}
+		amt := big.NewInt(int64(1 + rng.Intn(1_0000_0000)))
+		switch {
+		case in.Mint != nil:
+			in.Mint.Amount = verifgen.Units(amt)
+		case in.Deposit != nil:
+			in.Deposit.Amount = verifgen.Units(amt)
+		}
+		c.tx.Inputs = append(c.tx.Inputs, in)
+		c.ins = append(c.ins, nil)
+		c.tx.References = []crypto.Hash{wd.sim.LastConsensusTx}
+		total := new(big.Int).Set(amt)
+		if rng.Intn(2) == 0 {
+			total.Add(total, wd.sumIns(c))
+		}
+		wd.fillOutputs(c, total, 1+rng.Intn(2))
+		c.sign = "map+raw"
+		k := wd.sim.Net.Signers[0].PrivateSpendKey
+		if in.Deposit != nil || rng.Intn(3) == 0 {
+			k = wd.sim.Net.Custodian.PrivateSpendKey
+		}
+		c.raw = &k
 	case k < 4:
 		c.kind = "transfer"
 		asset := []crypto.Hash{verifAssetXIN, verifAssetXIN, verifAssetBTC, verifAssetETH, verifAssetAny}[rng.Intn(5)]
@@ -1432,6 +1463,10 @@ func (wd *vC05World) signCand(c *vC05Cand) *common.VersionedTransaction {
 	default:
 		for _, r := range c.ins {
 			m := make(map[uint16]*crypto.Signature)
+			if r == nil && c.sign == "map+raw" && c.raw != nil {
+				sig := c.raw.Sign(msg)
+				m[0] = &sig
+			}
 			if r != nil && r.Out != nil {
 				n := r.Out.Threshold()
 				if n == 0 {
